@@ -1,5 +1,6 @@
 import DepLogic.Model.Pep440
 import DepLogic.Proofs.SpecTheorems
+import DepLogic.Proofs.VersionOrder
 /-
   C04 — specifier membership agrees with PEP 440 through the whole algebra (final releases).
 
@@ -26,6 +27,79 @@ theorem leaf_exact_plain (c : Clause Ver) (h : Plain c) (v : Ver) :
   simp only at h1 h2
   subst h1
   cases op <;> simp [fromClause, Pep440.matchesFinal, Spec.mem, Range.mem] at h2 ⊢ <;> grind
+
+theorem le_iff_lt_or_eqv (a b : Ver) : le a b ↔ (lt a b ∨ eqv a b) := by
+  have tot := @LinPre.le_total Ver _
+  constructor
+  · intro h
+    by_cases h2 : le b a
+    · exact Or.inr ⟨h, h2⟩
+    · exact Or.inl h2
+  · rintro (h | h)
+    · rcases tot a b with h' | h'
+      · exact h'
+      · exact absurd h' h
+    · exact h.1
+
+theorem leaf_wild_eq (w v : Ver) (hv : v.isFinal = true) (s : Spec Ver) (b : Bool)
+    (hs : fromClause ⟨.eq, w, true⟩ = some s) (hb : Pep440.matchesFinal ⟨.eq, w, true⟩ v = some b) :
+    b = true ↔ s.mem v := by
+  simp only [fromClause, Option.map_eq_some_iff] at hs
+  obtain ⟨hi, hhi, rfl⟩ := hs
+  simp only [Pep440.matchesFinal, Option.some.injEq] at hb
+  subst hb
+  rw [← VOrd.wild_mem w v hi hv hhi]
+  simp only [Spec.mem, Range.mem, le_iff_lt_or_eqv]
+  simp
+
+theorem leaf_wild_ne (w v : Ver) (hv : v.isFinal = true) (s : Spec Ver) (b : Bool)
+    (hs : fromClause ⟨.ne, w, true⟩ = some s) (hb : Pep440.matchesFinal ⟨.ne, w, true⟩ v = some b) :
+    b = true ↔ s.mem v := by
+  have tot := @LinPre.le_total Ver _
+  simp only [fromClause, Option.map_eq_some_iff] at hs
+  obtain ⟨hi, hhi, rfl⟩ := hs
+  simp only [Pep440.matchesFinal, Option.some.injEq] at hb
+  subst hb
+  have := VOrd.wild_mem w v hi hv hhi
+  simp only [Bool.not_eq_true', Spec.mem, Range.mem, List.mem_cons, List.not_mem_nil, or_false,
+    exists_eq_or_imp, exists_eq_left]
+  rw [← Bool.not_eq_true, ← this, le_iff_lt_or_eqv]
+  simp only [lt, eqv]
+  grind
+
+theorem leaf_compat (w v : Ver) (wild : Bool) (hv : v.isFinal = true) (s : Spec Ver) (b : Bool)
+    (hs : fromClause ⟨.compat, w, wild⟩ = some s) (hb : Pep440.matchesFinal ⟨.compat, w, wild⟩ v = some b) :
+    b = true ↔ s.mem v := by
+  simp only [fromClause, Option.map_eq_some_iff] at hs
+  obtain ⟨hi, hhi, rfl⟩ := hs
+  simp only [Pep440.matchesFinal] at hb
+  split at hb
+  · simp at hb
+  · rename_i hlen
+    simp only [Option.some.injEq] at hb
+    subst hb
+    have := VOrd.compat_mem w v hi hv (by omega) hhi
+    simp only [Bool.and_eq_true, decide_eq_true_eq]
+    rw [← this]
+    simp only [Spec.mem, Range.mem, le_iff_lt_or_eqv]
+    simp
+
+/-- **leaf lemma, all operators**: on a final-release candidate, PEP 440 matching of a clause
+    (ordered comparison, `==`/`!=`, prefix matching for `.*`, `~=`) is interval membership in the
+    range(s) `_from_pkg_specifier` builds -/
+theorem leaf_exact (c : Clause Ver) (v : Ver) (hv : v.isFinal = true) (s : Spec Ver) (b : Bool)
+    (hs : fromClause c = some s) (hb : Pep440.matchesFinal c v = some b) : b = true ↔ s.mem v := by
+  have tot := @LinPre.le_total Ver _
+  rcases c with ⟨op, w, wild⟩
+  cases op <;> cases wild <;>
+    first
+      | exact leaf_wild_eq w v hv s b hs hb
+      | exact leaf_wild_ne w v hv s b hs hb
+      | exact leaf_compat w v _ hv s b hs hb
+      | (simp only [fromClause, Pep440.matchesFinal, Option.some.injEq] at hs hb
+         subst hs hb
+         simp [Spec.mem, Range.mem]
+         try grind)
 
 /-- expression trees over leaves -/
 inductive Tree where
